@@ -19,6 +19,12 @@ CLAIMED = {
         text="Breadth-first search whose transition is the real insert / insert_with_statistics call on a clone of the real DelaunayTriangulation: every history over the per-dimension point alphabet (3x3 grid, unit cube + centre, D=4/5 cube alphabets; duplicates, on-edge/on-vertex, collinear and coplanar bootstrap prefixes included) to the reported depth, from the empty triangulation and from batch-constructed seeds, under the default policies and every single-policy deviation (ValidationPolicy, TopologyGuarantee, repair policy, check policy) plus at most one mid-history policy change, both kernels, release and debug-assertion profiles. After every call, whatever it returned, the state must be the bootstrap state or pass the independent Level 1-3 reference at the current guarantee; Inserted must add exactly the caller's vertex and the returned key must resolve to it; under check policy EveryN(1) an Inserted state must have no certain empty-circumsphere violation. States are de-duplicated on an ordered dump that includes the hidden caches (hook).",
         note="Exhaustive to the depth recorded in the evidence file only; alphabets are small exact grids. Trusts the reference validators, the exact oracle and that the hidden-state digest hook is read-only. Panicking transitions are counted but judged by C19.",
         design_ref="DESIGN.md section 5 (C02)"),
+    "C03": dict(
+        category="fault_enumeration",
+        technique="exhaustive fault enumeration on the real code: every mutation op in every BFS state (natural failures) and every failpoint site x hit index x error flavour armed one at a time, with fingerprint-equality and differential-future oracles",
+        text="For every state of a breadth-first exploration (insert/remove/flip/repair histories from the empty triangulation and from batch-constructed seeds, D=2..5, both kernels, default policies plus repair/check/validation/guarantee deviations incl. repair x check pairs), every op of the mutation alphabet is applied: insert (both entry points, every alphabet point), duplicate-UUID insert, remove of every vertex and of an unknown vertex, every flip handle that can be formed incl. stale/out-of-range ones, both repair entry points. Whenever a call returns Err or Skipped the semantic fingerprint (vertices with UUID, coordinate bits, data; cells as vertex-UUID sets; neighbour pairs; counts; policies) must equal the one taken before the call, and a menu of follow-up operations must give equal results on the survivor and on a pristine clone (this is what exposes caches that did not roll back). Then, for the states up to the recorded depth, the operation is re-run once per (failpoint site, hit index <= 3, error flavour) with exactly that internal error return forced (guarded hooks at 40 sites in insertion, cavity, hull extension, post-insertion repair/check, removal, flips and repair postcondition): a surfaced failure must satisfy the same oracle, an absorbed one must leave a state that passes the independent Level 1-3 reference.",
+        note="Deviation bound: one injected failure per operation. Failpoints are inert unless armed on the calling thread. The sites are a finite list chosen by reading the code (Appendix A of DESIGN.md), not every `?` in the crate. Known finding: public Edit-API flips are not rolled back when an internal step fails after the first mutation (listed per flip kind). Two genuine defects found by this check were repaired (`fix:` commits 2901a58, 5e1db2b).",
+        design_ref="DESIGN.md section 5 (C03), 2.5, Appendix A"),
     "C12": dict(
         category="exploration",
         technique="exhaustive enumeration of grid tuples x vertex orders x scale variants against an exact (bigint) sign oracle",
